@@ -21,6 +21,20 @@ NOTES = ("All checks are property-based tests / fuzzers over generated inputs (D
 NOT_YET = {}
 
 TEXT = {
+    "C18": {
+        "engine": "tape-pbt",
+        "technique": "property-based testing + bounded exhaustive enumeration: each utility against a naive reference model and its algebraic laws (erase/insert inverse, collapse/expand inverse), all index types used by callers, exact-capacity containers under ASan",
+        "level_text": "Exhaustive over all vectors up to length 6-7 x all sorted index lists (incl. lists reaching past the end where the function guards them), all small triangle lists x all maps, all strips over a 4-letter alphabet up to length 7, plus rapidcheck cases up to 65535 elements; every result compared with a five-line model. Exhaustive only inside the stated bounds.",
+        "level_note": "Unchecked preconditions every caller respects (sorted unique index lists, containers addressable by the index type) are not violated by the generator; out-of-bounds accesses are visible through ASan with size()==capacity() vectors.",
+        "design_ref": "DESIGN.md section 3, C18",
+    },
+    "C19": {
+        "engine": "tape-pbt",
+        "technique": "property-based testing + exhaustive token-sequence enumeration: canonical-form predicate, idempotence (second clean-up is a no-op) and a differential against an independent non-regex reference of the documented pipeline, through both entry points and every slot kind",
+        "level_text": "All token sequences of length <= 4 (5 thorough) over separators/whitespace/dots/letters/'textures'/'data'/drive/newline x {OB, FO3, SK+} x terrain x both entry points, every slot of every kind, plus random byte strings up to 4 KB; each cleaned path must satisfy the canonical-form predicate and be a fixed point of a second clean-up. Six root causes on the pinned tree are recorded as known findings and excluded by signature so the search continues behind them.",
+        "level_note": "'relative path' is the platform's notion (std::filesystem on Linux); the differential is applied only where the documented pipeline itself ends in a canonical fixed point; a 60 s watchdog turns a hang into a crash of the shard (reported).",
+        "design_ref": "DESIGN.md section 3, C19",
+    },
     "C01": {
         "engine": "engine-S",
         "technique": "property-based testing: round-trip / fixed-point oracle over hook-synthesised files of every block type x version (rapidcheck tapes + enumerated pattern tapes) and the sample files",
